@@ -623,6 +623,56 @@ func (g *gen) genCase() reqCase {
 			c.Calls = append(c.Calls, a)
 		}
 	}
+	if g.prop == "C01" && !relRoot && r.Chance(25) {
+		// a dependency cycle through A with the back edge spelled in some other way than the entry request,
+		// a member that throws at some position, and retries under several spellings
+		d := dirs[r.Intn(3)]
+		n := 2 + r.Intn(3)
+		names := []string{"ca", "cb", "cc", "cd"}[:n]
+		spell := func(k int) string {
+			return []string{"./" + names[k], "./" + names[k] + ".js", d + "/" + names[k], "./x/../" + names[k]}[r.Intn(4)]
+		}
+		thrower := r.Intn(n + 1) // n = nobody throws
+		for k := 0; k < n; k++ {
+			var b []act
+			b = append(b, act{K: "S", A: "t1"})
+			pos := r.Intn(3)
+			if k == thrower && pos == 0 {
+				b = append(b, act{K: "T", A: fmt.Sprintf("T%d", r.Intn(1000))})
+			}
+			b = append(b, act{K: "R", A: spell((k + 1) % n), C: r.Chance(30)})
+			if k == thrower && pos == 1 {
+				b = append(b, act{K: "T", A: fmt.Sprintf("T%d", r.Intn(1000))})
+			}
+			b = append(b, act{K: "S", A: "t2"})
+			if k == thrower && pos == 2 {
+				b = append(b, act{K: "T", A: fmt.Sprintf("T%d", r.Intn(1000))})
+			}
+			p := path.Clean(d + "/" + names[k] + ".js")
+			if !have[p] {
+				have[p] = true
+				c.Files = append(c.Files, fileSpec{Path: p, Kind: "J", Body: b})
+			}
+		}
+		for i := 0; i < 2+r.Intn(4); i++ {
+			c.Calls = append(c.Calls, topCall{Script: path.Join(d, "m.js"), Spell: spell(r.Intn(n))})
+		}
+	}
+	if g.prop == "C15" && r.Chance(30) {
+		// the same name through every table, prefixed and unprefixed, in a random order
+		x := []string{"cm1", "cg", "cr", "cgr", "util", "pre", "cm2", "a/b"}[r.Intn(8)]
+		if r.Chance(60) && !contains(c.Reg, x) && contains(regPool, x) {
+			c.Reg = append(c.Reg, x)
+		}
+		sp := []string{x, "node:" + x, x, "node:" + x, "node:node:" + x, "./" + x}
+		for i := 0; i < 2+r.Intn(4); i++ {
+			script := "/app/main.js"
+			if relRoot {
+				script = "main.js"
+			}
+			c.Calls = append(c.Calls, topCall{Script: script, Spell: sp[r.Intn(len(sp))]})
+		}
+	}
 	ncalls := 1 + r.Intn(8)
 	for i := 0; i < ncalls; i++ {
 		if r.Chance(45) {
@@ -647,6 +697,15 @@ func (g *gen) genCase() reqCase {
 		c.Calls = append(c.Calls, tc)
 	}
 	return c
+}
+
+func contains(xs []string, x string) bool {
+	for _, y := range xs {
+		if y == x {
+			return true
+		}
+	}
+	return false
 }
 
 func (g *gen) regChance() int {
